@@ -1,6 +1,8 @@
 package sym
 
 import (
+	"time"
+
 	"verif/gosym/smt"
 )
 
@@ -127,6 +129,18 @@ func registerTime(e *Engine) {
 	})
 	e.on("time.Since", func(fr *Frame, a []Value) Value { return smt.Sub(fr.p.now(), timeExt(a[0])) })
 	e.on("time.Until", func(fr *Frame, a []Value) Value { return smt.Sub(timeExt(a[0]), fr.p.now()) })
+	// ParseDuration on concrete text: the real function (package time's unit table is not initialised in the interpreter)
+	e.on("time.ParseDuration", func(fr *Frame, a []Value) Value {
+		txt, ok := a[0].(Str).Concrete()
+		if !ok {
+			panic(abort("unsupported: time.ParseDuration of symbolic text"))
+		}
+		d, err := time.ParseDuration(txt)
+		if err != nil {
+			return Tuple{smt.I(0), fr.p.mkError(CStr(err.Error()))}
+		}
+		return Tuple{smt.I(int64(d)), Iface{}}
+	})
 	e.on("time.Unix", func(fr *Frame, a []Value) Value {
 		return mk(smt.Add(smt.Mul(a[0].(*smt.T), smt.I(1000000000)), a[1].(*smt.T)))
 	})
